@@ -29,10 +29,10 @@ FILLER = ["\tmov #1, r0", "\tnop", "\t.word 1, 2, 3", "\tclr (r1)+", "; plain co
 def c17_case(draw):
     fault = draw(st.sampled_from(mutate.FAULTS + mutate.FAULTS + mutate.WARNINGS))
     uid = draw(st.integers(1, 99))
-    place = draw(st.sampled_from(["main", "main", "repeat", "included", "linked2", "linked3", "main-first", "main-last"]))
+    place = draw(st.sampled_from(["main", "main", "repeat", "included", "included-deep", "linked2", "linked3", "main-first", "main-last"]))
     if fault.where in ("top", "adjacent", "top-after-link", "utf8") and place == "repeat":
         place = "main"
-    if fault.where == "top-after-link" and place not in ("main", "main-last"):
+    if fault.where == "top-after-link" and place not in ("main", "main-last"):  # a second .link needs the first one in the same main file
         place = "main"
     before = draw(st.lists(st.sampled_from(FILLER), min_size=0, max_size=6))
     after = draw(st.lists(st.sampled_from(FILLER), min_size=0, max_size=4))
@@ -82,6 +82,15 @@ def build(c):
         tree["sub/inc.mac"] = clean
         mains = ["main.mac"]
         culprit = "sub/inc.mac"
+    elif c["place"] == "included-deep":
+        # include depth 3, the innermost file in another directory, reached from the second linked file
+        tree["first.mac"] = "\tnop\n"
+        tree["main.mac"] = "\t.include \"sub/mid.mac\"\n\tnop\n"
+        tree["sub/mid.mac"] = "\tnop ; середина\n\t.include \"deep/low.mac\"\n"
+        tree["sub/deep/low.mac"] = "\tnop\n\t.include \"../../other/inc.mac\"\n\tnop\n"
+        tree["other/inc.mac"] = clean
+        mains = ["first.mac", "main.mac"]
+        culprit = "other/inc.mac"
     else:
         n = 2 if c["place"] == "linked2" else 3
         for i in range(n - 1):
@@ -190,7 +199,7 @@ def run_shard(spec, ctx):
     if spec["part"] == "every-kind":
         # every catalogued kind at every placement class, fixed surroundings, with the CLI renderings
         for f in mutate.FAULTS + mutate.WARNINGS:
-            for place in ("main", "repeat", "included", "linked2", "linked3", "main-first", "main-last"):
+            for place in ("main", "repeat", "included", "included-deep", "linked2", "linked3", "main-first", "main-last"):
                 if f.where in ("top", "adjacent", "top-after-link", "utf8") and place == "repeat":
                     continue
                 if f.where == "top-after-link" and place not in ("main", "main-last"):
